@@ -356,12 +356,20 @@ func occupancyMapComplete(c *Ctx) {
 		}
 		for _, a := range adds {
 			extra := 0
+			// allowed: the continuation test of the loop(s) the call sits in (whatever its form: range, index, for-cond)
+			// and the InitEmptyDistribution() result
+			loopConds := map[ssa.Value]bool{}
+			for _, l := range Loops(fn) {
+				if !l.Blocks[a.(ssa.Instruction).Block()] {
+					continue
+				}
+				if iff, ok := l.Header.Instrs[len(l.Header.Instrs)-1].(*ssa.If); ok {
+					loopConds[iff.Cond] = true
+				}
+			}
 			for _, f := range FactsAtInstr(a.(ssa.Instruction)) {
-				// allowed: the range-loop condition and the InitEmptyDistribution() result
-				if bo, ok := f.Cond.(*ssa.BinOp); ok && bo.Op == token.LSS {
-					if _, isPhiAdd := bo.X.(*ssa.BinOp); isPhiAdd {
-						continue
-					}
+				if loopConds[f.Cond] {
+					continue
 				}
 				if cl, ok := f.Cond.(ssa.CallInstruction); ok && CallName(cl) == "(*frac.Info).InitEmptyDistribution" {
 					continue
